@@ -407,3 +407,135 @@ def update_order(ctx: Ctx, modules: Iterable[str], rule: str = "E8.update-order"
                                f"refreshed the predicted / linked parameter buffer 'p': the buffered field is computed from the previous "
                                f"prediction and carries its (stale) autograd graph", node=call)
     ctx.floor(rule, 4)
+
+
+# ---- E8.scratch-reuse -------------------------------------------------------------------------------------------------------------
+_SAVES_OPERANDS = {"matmul", "mm", "bmm", "mv", "dot", "einsum", "mul", "div", "true_divide", "pow", "addcmul", "addcdiv", "baddbmm", "addmm",
+                   "conv1d", "conv2d", "conv3d", "conv_transpose1d", "conv_transpose2d", "conv_transpose3d", "linear", "bilinear", "cross",
+                   "grid_sample", "atan2", "hypot", "lerp", "where_not"}
+_ALLOCATORS = {"empty", "new_empty", "zeros", "new_zeros", "ones", "new_ones", "full", "new_full", "empty_like", "zeros_like", "ones_like",
+               "full_like", "eye", "clone"}
+
+_SCRATCH_CONTROL = '''
+import torch
+
+def bad_reuse(matrix, angles, D):
+    rot = matrix.new_empty(matrix.shape[:-1] + (D,))
+    rotation = None
+    for i in range(3):
+        rot[..., 0, 0] = angles[i].cos()
+        rot[..., 0, 1] = -angles[i].sin()
+        rotation = rot.clone() if i == 0 else torch.matmul(rotation, rot)
+    return rotation
+
+def fine_fresh(matrix, angles, D):
+    rotation = None
+    for i in range(3):
+        rot = matrix.new_empty(matrix.shape[:-1] + (D,))
+        rot[..., 0, 0] = angles[i].cos()
+        rotation = rot if i == 0 else torch.matmul(rotation, rot)
+    return rotation
+
+def fine_accumulator(xs):
+    out = torch.zeros(3)
+    for x in xs:
+        out += x * 2
+    return out
+'''
+
+
+def _scratch_reuse_sites(fn: ast.AST) -> List[Tuple[ast.AST, str, str]]:
+    """(node, name, op): `name` is bound to a freshly allocated tensor before a loop, the loop body writes it in place (subscript store,
+    method ending in '_', augmented assignment) *and* passes it as an operand to an operation that keeps its operands for the backward pass."""
+    out: List[Tuple[ast.AST, str, str]] = []
+
+    def allocated(e: ast.AST) -> bool:
+        return isinstance(e, ast.Call) and isinstance(e.func, (ast.Attribute, ast.Name)) and \
+            (e.func.attr if isinstance(e.func, ast.Attribute) else e.func.id) in _ALLOCATORS
+
+    def scan(body: List[ast.stmt], scratch: Set[str]) -> None:
+        scratch = set(scratch)
+        for st in body:
+            if isinstance(st, (ast.FunctionDef, ast.AsyncFunctionDef, ast.ClassDef)):
+                continue
+            if isinstance(st, ast.Assign) and len(st.targets) == 1 and isinstance(st.targets[0], ast.Name):
+                if allocated(st.value):
+                    scratch.add(st.targets[0].id)
+                else:
+                    scratch.discard(st.targets[0].id)
+            if isinstance(st, (ast.For, ast.While)):
+                inner = list(st.body)
+                rebound = {t.id for s_ in ast.walk(ast.Module(body=inner, type_ignores=[])) if isinstance(s_, ast.Assign)
+                           for t in s_.targets if isinstance(t, ast.Name)}
+                written: Dict[str, ast.AST] = {}
+                used: Dict[str, Tuple[ast.AST, str]] = {}
+                for n_ in ast.walk(ast.Module(body=inner, type_ignores=[])):
+                    if isinstance(n_, (ast.Assign, ast.AugAssign)):
+                        for t in (n_.targets if isinstance(n_, ast.Assign) else [n_.target]):
+                            if isinstance(t, ast.Subscript) and isinstance(t.value, ast.Name):
+                                written.setdefault(t.value.id, n_)
+                            if isinstance(n_, ast.AugAssign) and isinstance(t, ast.Name):
+                                written.setdefault(t.id, n_)
+                    if isinstance(n_, ast.Call) and isinstance(n_.func, ast.Attribute):
+                        if _is_inplace_name(n_.func.attr) and isinstance(n_.func.value, ast.Name):
+                            written.setdefault(n_.func.value.id, n_)
+                        if n_.func.attr in _SAVES_OPERANDS:
+                            ops = list(n_.args) + [k.value for k in n_.keywords] + ([n_.func.value] if not (isinstance(n_.func.value, ast.Name) and n_.func.value.id in ("torch", "F")) else [])
+                            for a in ops:
+                                if isinstance(a, ast.Name):
+                                    used.setdefault(a.id, (n_, n_.func.attr))
+                    if isinstance(n_, ast.BinOp) and isinstance(n_.op, (ast.MatMult, ast.Mult, ast.Div)):
+                        for a in (n_.left, n_.right):
+                            if isinstance(a, ast.Name):
+                                used.setdefault(a.id, (n_, type(n_.op).__name__))
+                for name in sorted(scratch):
+                    if name in rebound or name not in written or name not in used:
+                        continue
+                    # an accumulator that is only ever the in-place *target* (out += x * w) is not an operand
+                    if isinstance(written[name], ast.AugAssign) and isinstance(written[name].target, ast.Name):
+                        continue
+                    out.append((used[name][0], name, used[name][1]))
+                scan(inner, scratch - rebound)
+                scan(list(st.orelse), scratch)
+            else:
+                for fld in ("body", "orelse", "finalbody"):
+                    sub = getattr(st, fld, None)
+                    if isinstance(sub, list) and sub and isinstance(sub[0], ast.stmt):
+                        scan(sub, scratch)
+                for h in getattr(st, "handlers", []) or []:
+                    scan(h.body, scratch)
+    scan(list(fn.body), set())
+    return out
+
+
+def scratch_reuse(ctx: Ctx, modules: Iterable[str], rule: str = "E8.scratch-reuse") -> None:
+    ctx.rule(rule, "a tensor allocated before a loop (empty / new_empty / zeros / clone ...) and not rebound inside it is not both written in place in "
+                   "the loop body (item assignment, method ending in '_', augmented assignment) and handed to an operation that keeps its operands "
+                   "for the backward pass (matmul family, mul, div, pow, conv, ...): the operand saved in one iteration would be overwritten by the "
+                   "next one — forward values are unchanged, backward() raises. Expected count on the pinned tree: zero; the matcher must fire on "
+                   "its own example (a scratch rotation matrix reused across the factors of an Euler product) and stay silent on a per-iteration "
+                   "allocation and on an accumulator")
+    probe = ast.parse(_SCRATCH_CONTROL)
+    hits = [(fn.name, bool(_scratch_reuse_sites(fn))) for fn in probe.body if isinstance(fn, ast.FunctionDef)]
+    if hits != [("bad_reuse", True), ("fine_fresh", False), ("fine_accumulator", False)]:
+        raise AnalysisError(f"{rule}: positive control not recognised as expected: {hits}")
+    prog = ctx.prog
+    n = loops = 0
+    for mod in modules:
+        if mod not in prog.modules:
+            raise AnalysisError(f"module vanished: {mod}")
+        mi = prog.modules[mod]
+        funcs = list(mi.functions.values()) + [m for c in mi.classes.values() for m in c.methods.values()]
+        for fi in funcs:
+            if fi.overloads and fi.node in fi.overloads:
+                continue
+            n += 1
+            loops += sum(isinstance(x, (ast.For, ast.While)) for x in ast.walk(fi.node))
+            sites = _scratch_reuse_sites(fi.node)
+            ctx.ob(rule, fi.key, not sites)
+            for node, name, op in sites:
+                ctx.report(rule, fi, f"scratch={name} op={op}",
+                           f"{fi.qualname}(): '{name}' is allocated once before the loop, overwritten in place in every iteration and passed to {op} "
+                           f"(which keeps it for the backward pass): backward() raises 'modified by an inplace operation'", node=node)
+    ctx.extra["scratch_reuse"] = {"functions": n, "loops_examined": loops}
+    ctx.floor(rule, 100)
